@@ -9,6 +9,10 @@ CONSTANTS
   RxDeltas = {0, 1}
   Delays = {0, 2, 5}
   CtrlDelays = {}
+  Sec = 1
+  TsGrid = 1
+  TickUs = 1000000
+  BaseTicks = 1640995200
   IndexMode = "zero"
   Record = TRUE
 INVARIANTS EmitScn
